@@ -36,23 +36,27 @@ impl GC {
 
     /// Removes the given object (and everything it refers) from this garbage collector so it is no longer managed by it
     pub fn untrace(&mut self, o: Object) {
-        if let Some(pos) = self
-            .objects
-            .iter()
-            .position(|a| std::ptr::eq(a.as_ptr(), o.as_ptr()))
-        {
-            self.objects.swap_remove(pos);
+        // (a list of pending objects instead of recursion: arrays can be nested very deeply)
+        let mut pending = vec![o];
+        while let Some(o) = pending.pop() {
+            if let Some(pos) = self
+                .objects
+                .iter()
+                .position(|a| std::ptr::eq(a.as_ptr(), o.as_ptr()))
+            {
+                self.objects.swap_remove(pos);
 
-            if o.tag() == Type::Array {
-                // Safety: We've already checked the type
-                unsafe {
-                    for val in o.as_vec_unchecked() {
-                        self.untrace(*val);
+                if o.tag() == Type::Array {
+                    // Safety: We've already checked the type
+                    unsafe {
+                        for val in o.as_vec_unchecked() {
+                            pending.push(*val);
+                        }
                     }
                 }
-            }
 
-            self.mark_bitmap.truncate(self.objects.len());
+                self.mark_bitmap.truncate(self.objects.len());
+            }
         }
     }
 
@@ -123,6 +127,21 @@ impl GC {
             return;
         }
 
+        // Work through nested arrays with a list of pending objects instead of recursion,
+        // so that a very deeply nested array can not exhaust the native stack.
+        let mut pending = vec![*o];
+        while let Some(o) = pending.pop() {
+            self.mark_one(&o, &mut pending);
+        }
+    }
+
+    /// Marks a single object, any objects inside it are added to `pending`
+    #[inline(always)]
+    fn mark_one(&mut self, o: &Object, pending: &mut Vec<Object>) {
+        if !o.is_heap_allocated() {
+            return;
+        }
+
         // The position of this object in the list of traced objects is the position of its mark bit.
         // Objects that are not traced by this garbage collector are none of its business.
         let index = match self
@@ -146,7 +165,7 @@ impl GC {
 
                     // Safety: we already checked the type.
                     for v in o.as_vec_unchecked() {
-                        self.mark(v);
+                        pending.push(*v);
                     }
                 }
             }
